@@ -247,6 +247,9 @@ def main():
         proof_broken.append("forbidden vernacular: " + "; ".join(forb[:5]))
     if not tr_ok:
         proof_broken.append("translator failed (gen/*.v could not be regenerated from the source)")
+    if any(f[0].endswith("gen/ConstsCheck.v") for f in failed):
+        proof_broken.append("gen/ConstsCheck.v does not compile: a literal of the hand-written model no longer equals the constant "
+                            "regenerated from the Go source by tools/go2coq (%s)" % ", ".join("%s:%s" % f for f in failed if f[0].endswith("gen/ConstsCheck.v")))
     if not props["exists"]:
         proof_broken.append("Props/%s.v missing" % pid)
     elif not props["ok"]:
